@@ -219,7 +219,7 @@ func (s *Stream) TSOpt(feature string) pcommon.Timestamp {
 	return s.TS()
 }
 
-var id16Pool = []string{"", "\x01", "aaaaaaaaaaaaaaaa", "\x00\x00\x00\x00\x00\x00\x00\x00\x00\x00\x00\x00\x00\x00\x00\x01", "\xff\xff\xff\xff\xff\xff\xff\xff\xff\xff\xff\xff\xff\xff\xff\xff", "bbbbbbbbbbbbbbbb"}
+var id16Pool = []string{"", "\x01", "aaaaaaaaaaaaaaaa", "aaaaaaaabbbbbbbb", "aaaaaaaaaaaaaaab", "\x00\x00\x00\x00\x00\x00\x00\x00\x00\x00\x00\x00\x00\x00\x00\x01", "\xff\xff\xff\xff\xff\xff\xff\xff\xff\xff\xff\xff\xff\xff\xff\xff", "bbbbbbbbbbbbbbbb"}
 var id8Pool = []string{"", "\x01", "bbbbbbbb", "\x00\x00\x00\x00\x00\x00\x00\x01", "\xff\xff\xff\xff\xff\xff\xff\xff", "cccccccc"}
 
 // TraceID draws a trace id (all-zero, repeated and random values).
@@ -346,6 +346,15 @@ func (s *Stream) confuse(m pcommon.Map) {
 	k := rapid.SampledFrom(keys).Draw(s.T, "ck")
 	v, _ := m.Get(k)
 	s.Stats["confusion_mutations"]++
+	if rapid.IntRange(0, 4).Draw(s.T, "cnest") == 0 {
+		// difference hidden inside a nested value: an extra entry with an
+		// unset value or an empty key in a nested map, an extra unset element
+		// in a nested list, or a changed nested leaf (top-level such entries
+		// are dropped by the documented normalisation, nested ones are kept)
+		s.confuseNested(v, 0)
+		s.Stats["nested_mutations"]++
+		return
+	}
 	if rapid.IntRange(0, 3).Draw(s.T, "cnear") == 0 {
 		// near-identical value of the SAME type: differs below the precision
 		// or in a way a lossy rendering would hide
@@ -472,6 +481,65 @@ func (s *Stream) confuse(m pcommon.Map) {
 		if nv != v2 {
 			v2.CopyTo(nv)
 			m.Remove(k)
+		}
+	}
+}
+
+// confuseNested changes a value somewhere below its top level.
+func (s *Stream) confuseNested(v pcommon.Value, depth int) {
+	switch v.Type() {
+	case pcommon.ValueTypeMap:
+		m := v.Map()
+		var keys []string
+		m.Range(func(k string, _ pcommon.Value) bool { keys = append(keys, k); return true })
+		sort.Strings(keys)
+		if len(keys) > 0 && depth < 3 && rapid.IntRange(0, 2).Draw(s.T, "cndesc") == 0 {
+			c, _ := m.Get(rapid.SampledFrom(keys).Draw(s.T, "cnkey"))
+			s.confuseNested(c, depth+1)
+			return
+		}
+		switch rapid.IntRange(0, 4).Draw(s.T, "cnm") {
+		case 0:
+			m.PutEmpty("extra") // unset value
+		case 1:
+			m.PutStr("", "x") // empty key
+		case 2:
+			m.PutEmpty("") // empty key, unset value
+		case 3:
+			if len(keys) > 0 {
+				m.Remove(keys[len(keys)-1])
+			} else {
+				m.PutBool("b", false)
+			}
+		default:
+			m.PutInt("extra", 0)
+		}
+	case pcommon.ValueTypeSlice:
+		sl := v.Slice()
+		if sl.Len() > 0 && depth < 3 && rapid.IntRange(0, 2).Draw(s.T, "cnldesc") == 0 {
+			s.confuseNested(sl.At(rapid.IntRange(0, sl.Len()-1).Draw(s.T, "cnidx")), depth+1)
+			return
+		}
+		switch rapid.IntRange(0, 2).Draw(s.T, "cnl") {
+		case 0:
+			sl.AppendEmpty() // unset element
+		case 1:
+			sl.AppendEmpty().SetStr("")
+		default:
+			sl.AppendEmpty().SetInt(0)
+		}
+	default:
+		// wrap the scalar: {"n": old} with an extra unset entry, or [old]
+		old := pcommon.NewValueEmpty()
+		v.CopyTo(old)
+		if rapid.Bool().Draw(s.T, "cnwrap") {
+			m := v.SetEmptyMap()
+			old.CopyTo(m.PutEmpty("n"))
+			if rapid.Bool().Draw(s.T, "cnwrapx") {
+				m.PutEmpty("u")
+			}
+		} else {
+			old.CopyTo(v.SetEmptySlice().AppendEmpty())
 		}
 	}
 }
